@@ -21,7 +21,7 @@ import (
 // ends gracefully (code runs out right after a HALT), one that ends
 // abnormally (code runs out elsewhere) and one whose function sets TERMINATE.
 // "mark" raises client flag 8 on the way.
-func endApp() *app.Res {
+func endApp(quiet bool) *app.Res {
 	rs := app.NewRes()
 	rs.Funcs["bye"] = app.Static("bye")
 	rs.Funcs["hdr"] = app.Static("hdr")
@@ -38,6 +38,12 @@ func endApp() *app.Res {
 	rs.Node("deeper", "deeper", app.Code().Halt().InCmp("end1", "1").InCmp("abn", "2").InCmp("term", "3").InCmp("_", "0").Bytes())
 	rs.Node("marked", "marked {{.mark}}", app.Code().Load("mark", 4).Map("mark").Halt().InCmp("_", "0").Bytes())
 	rs.Node("end1", "done {{.bye}}", app.Code().Load("bye", 8).Map("bye").Halt().Bytes())
+	if quiet {
+		// nothing is loaded on the way to the graceful end: the engine has no
+		// "last value" to append to the final page
+		rs.Node("root", "root", menu(app.Code().MOut("x", "1")).Bytes())
+		rs.Node("end1", "done", app.Code().Halt().Bytes())
+	}
 	rs.Node("abn", "abn", app.Code().Load("bye", 8).Bytes())
 	rs.Node("term", "term", app.Code().Load("fterm", 4).Halt().InCmp("_", "0").Bytes())
 	rs.Node("_catch", "oops", app.Code().MOut("back", "0").Halt().InCmp("_", "*").Bytes())
@@ -83,7 +89,8 @@ func flag(st *state.State, i uint32) bool { return st.Flags[i/8]&(1<<(i%8)) != 0
 func End(v *vrt.Ctx) {
 	k := v.Param("K")
 	ctx := context.Background()
-	w := &world{cfg: engine.Config{Root: "root", FlagCount: 4, SessionId: "s1", OutputSize: 60}, rs: endApp(), first: v.Param("first") == 1}
+	quiet := v.Param("quiet") == 1
+	w := &world{cfg: engine.Config{Root: "root", FlagCount: 4, SessionId: "s1", OutputSize: 60}, rs: endApp(quiet), first: v.Param("first") == 1}
 	w.store = mem.NewMemDb()
 	w.store.Connect(ctx, "")
 	if w.first {
@@ -135,8 +142,12 @@ func End(v *vrt.Ctx) {
 			}
 			// the entry node has just loaded its own symbol afresh: nothing else
 			// is cached, and there is exactly one scope per level again
-			v.Assert(n == 1, "C20/restart-with-empty-cache")
-			v.Assert(w.rs.CallsOf("hdr") == hdr0+1, "C20/restart-loads-afresh")
+			if quiet {
+				v.Assert(n == 0, "C20/restart-with-empty-cache")
+			} else {
+				v.Assert(n == 1, "C20/restart-with-empty-cache")
+				v.Assert(w.rs.CallsOf("hdr") == hdr0+1, "C20/restart-loads-afresh")
+			}
 			v.Assert(int(ca.Levels()) == len(st.ExecPath)+1, "C20/restart-with-empty-cache")
 			if marked {
 				v.Assert(flag(st, state.FLAG_USERSTART), "C20/restart-keeps-client-flags")
@@ -167,7 +178,7 @@ func End(v *vrt.Ctx) {
 // Unblock: once the stored TERMINATE flag is cleared the session runs again.
 func Unblock(v *vrt.Ctx) {
 	ctx := context.Background()
-	w := &world{cfg: engine.Config{Root: "root", FlagCount: 4, SessionId: "s1", OutputSize: 60}, rs: endApp()}
+	w := &world{cfg: engine.Config{Root: "root", FlagCount: 4, SessionId: "s1", OutputSize: 60}, rs: endApp(false)}
 	w.store = mem.NewMemDb()
 	w.store.Connect(ctx, "")
 	w.request(ctx, nil)
